@@ -78,9 +78,15 @@ func newFRun() *fRun {
 	return r
 }
 
-func (r *fRun) apply(o fOp) obj {
+func (r *fRun) apply(o fOp) (res obj) {
 	r.out = [][]int{}
 	r.pat = o.pat
+	// a panic of the filter is an outcome of the call: whatever it had not yet delivered is lost
+	defer func() {
+		if rec := recover(); rec != nil {
+			res = obj{"op": o.op, "h": o.h, "inst": o.inst, "self": o.self, "pat": o.pat, "out": r.out, "cur": int(r.st.Height()), "panic": true}
+		}
+	}()
 	switch o.op {
 	case "recv":
 		r.nextId++
@@ -98,7 +104,7 @@ func (r *fRun) apply(o fOp) obj {
 			r.startRound(o.h)
 		}
 	}
-	return obj{"op": o.op, "h": o.h, "inst": o.inst, "self": o.self, "pat": o.pat, "out": r.out, "cur": int(r.st.Height())}
+	return obj{"op": o.op, "h": o.h, "inst": o.inst, "self": o.self, "pat": o.pat, "out": r.out, "cur": int(r.st.Height()), "panic": false}
 }
 
 func cmdFilter(args []string) int {
